@@ -29,11 +29,12 @@ Input classes that carry a defect of the unchanged tree keep the same strict che
 
 Documented refusals (allowed outcome, tree must stay as it was): prune_subtree(seed) TypeError;
 Edge.collapse on a leaf edge ValueError; Node.remove_child(non-child) ValueError;
-filter_leaf_nodes rejecting every leaf SeedNodeDeletionException.
+filter_leaf_nodes rejecting every leaf, and prune_* / retain_* asked to remove the taxon of a one-node tree, SeedNodeDeletionException.
 
 Left out on purpose (said here so nobody reads more into the evidence):
-  * requests that would leave no taxon-bearing leaf (prune_taxa of every taxon etc.: AttributeError on the seed
-    node, not a documented error class) except the filter_leaf_nodes refusal above;
+  * (requests that leave no taxon-bearing leaf -- prune_taxa of every taxon, retain_taxa of none -- used to be left out because they ended in an
+    AttributeError on the seed node; that is not a documented error, the statement quantifies over all taxon sets, so it was a defect: repaired,
+    and the requests are made since);
   * misuse the docstrings exclude: add_child of an ancestor or of a node that still has another parent,
     parent_node := a descendant, Edge.invert / Node.edge / Edge.head_node assignment by hand;
   * the taxon clauses for reseed_at / reroot_at_node at a LEAF (docstrings: "takes an internal node"; the leaf becomes
@@ -211,6 +212,13 @@ def menu(t, level, subset_level=None):
             add(dict(op="retain_taxa_with_labels", s=sub, **o))
         for o in _opt(level, ["upd", "sup", "rec"]):
             add(dict(op="filter_leaf_nodes", s=sub, **o))
+    if labels and distinct:
+        # every taxon asked away / none asked to stay: the operation completes (or refuses with a documented error) and what is left is well formed
+        for o in _opt(min(level, 1), ["upd", "sup"]):
+            add(dict(op="prune_taxa", s=list(labels), **o))
+            add(dict(op="prune_taxa_with_labels", s=list(labels), **o))
+            add(dict(op="retain_taxa", s=[], **o))
+            add(dict(op="retain_taxa_with_labels", s=[], **o))
     if labels:
         add(dict(op="filter_leaf_nodes", s=[], upd=False, sup=True, rec=True))  # documented refusal
     if labels:
@@ -224,6 +232,7 @@ def menu(t, level, subset_level=None):
         if _survivors(order, [order[i]]):
             for o in _opt(min(level, 1), ["plwt", "upd", "sup"]):
                 add(dict(op="prune_nodes", t=i, **o))
+            add(dict(op="seed_of_new_tree", t=i))
             for sup in B2 if level else (False,):
                 add(dict(op="remove_child", t=i, sup=sup))
                 add(dict(op="reversible_remove_child", t=i, sup=sup, undo=False))
@@ -352,6 +361,7 @@ class Plan(object):
         self.added = []            # taxa the request adds (on new leaves)
         self.added_internal = []   # ... on nodes that are not leaves afterwards
         self.refusal = None        # exception class of a documented refusal
+        self.may_refuse = None     # exception class of a refusal that is allowed but not required
         self.leafcheck = True
         self.nodecheck = True
         self.permute = False
@@ -414,6 +424,15 @@ def plan(t, env, d):
             P.removed = [x for x in order if not x._child_nodes and x.taxon is not None and named(x.taxon.label)]
         else:
             P.removed = [x for x in order if not x._child_nodes and x.taxon is not None and not named(x.taxon.label)]
+        if op != "filter_leaf_nodes" and any(x is t._seed_node for x in P.removed):
+            # the seed node itself carries a taxon asked away (a one-node tree): documented refusal, the tree stays as it is
+            P.refusal = SeedNodeDeletionException
+            P.removed = []
+        elif op != "filter_leaf_nodes" and t._seed_node.taxon is not None and \
+                (named(t._seed_node.taxon.label) if op.startswith("prune") else not named(t._seed_node.taxon.label)):
+            # an INTERNAL seed node carries a taxon asked away (a tree re-seeded at a leaf): it becomes a tip when all its children go, and the
+            # seed node cannot be removed -- the documented refusal is an allowed outcome then (well-formedness still demanded)
+            P.may_refuse = SeedNodeDeletionException
         if op == "prune_taxa":
             P.call = lambda: t.prune_taxa(taxa, update_bipartitions=o["upd"], suppress_unifurcations=o["sup"])
         elif op == "prune_taxa_with_labels":
@@ -445,6 +464,18 @@ def plan(t, env, d):
         P.removed = [tg]
         par = tg._parent_node
         P.call = lambda: par.remove_child(tg, suppress_unifurcations=o["sup"])
+    elif op == "seed_of_new_tree":
+        # Tree(seed_node=<a clade of this tree>): documented to splice the clade out of this tree (a warning says so); this tree stays well formed
+        # and loses exactly that clade
+        P.removed = [tg]
+
+        def _donate():
+            nt = Tree(seed_node=tg, taxon_namespace=ns)
+            if nt._seed_node is not tg or tg._parent_node is not None:
+                raise AssertionError("the new tree's seed node is not the clade, or the clade still has a parent")
+            _KEEP_TREES.append(nt)
+            del _KEEP_TREES[:-8]
+        P.call = _donate
     elif op == "reversible_remove_child":
         par = tg._parent_node
         if not o["undo"]:
@@ -628,6 +659,8 @@ def step(t, env, d):
     if raised is not None:
         if P.refusal is not None and isinstance(raised, P.refusal):
             pass
+        elif P.may_refuse is not None and isinstance(raised, P.may_refuse):
+            pass
         else:
             fails.append((name("raises"), "%s: %s" % (type(raised).__name__, raised)))
     elif P.refusal is not None:
@@ -668,7 +701,27 @@ def step(t, env, d):
         e = BP.encoding_errors(t, env.bitof, reach)
         if e:
             fails.append((name("bipartitions_fresh"), "; ".join(e[:3])))
+        elif d["op"] in ("encode_bipartitions", "update_bipartitions") and raised is None:
+            # "exactly what a fresh encoding would produce": encoding the result once more, with the same options, finds nothing left to do --
+            # same nodes in the same places, an encoding list of the same length (an encoding changes the structure where it suppresses
+            # unifurcations or collapses the basal bifurcation of a tree that is not rooted; whatever it had to do, it has done)
+            sig = [id(x) for x in S.pre(t._seed_node)]
+            n_enc = len(t.bipartition_encoding) if t.bipartition_encoding is not None else None
+            try:
+                with warnings.catch_warnings():
+                    warnings.simplefilter("ignore")
+                    P.call()
+                sig2 = [id(x) for x in S.pre(t._seed_node)]
+                n2 = len(t.bipartition_encoding) if t.bipartition_encoding is not None else None
+                if sig2 != sig or n2 != n_enc:
+                    fails.append((name("bipartitions_fresh"), "the same encoding call repeated on the result changes it: %d nodes / %r bipartitions, then %d nodes / %r "
+                                  "(%s)" % (len(sig), n_enc, len(sig2), n2, S.tree_newick(t, lengths=False))))
+            except Exception as ex:  # noqa
+                fails.append((name("bipartitions_fresh"), "the same encoding call repeated on the result raises %s: %s" % (type(ex).__name__, ex)))
     return fails, False
+
+
+_KEEP_TREES = []
 
 
 def _ms(d):
